@@ -2,7 +2,6 @@
 \* entity-factory failure (99), task limit 3, restart
 SPECIFICATION Spec
 CHECK_DEADLOCK FALSE
-INVARIANTS PlanOut
 CONSTANTS
   DBs = {"default", "d1", "*"}
   Colls = {"c1", "c2", "*"}
@@ -10,15 +9,16 @@ CONSTANTS
   UColls = {"c1", "c2", "c3"}
   Targets = {"A"}
   Vias = {"ci", "dbc"}
-  MapKinds = {"none", "own", "owndb", "foreign"}
+  MapKinds = {"none", "own", "foreign"}
   URs = {FALSE, TRUE}
-  Faults = {0, 1, 2, 3, 4, 5, 6, 7, 99}
+  Faults = {0, 1, 3, 4, 6, 99}
   DelFaults = {0, 1, 2, 3, 4}
   MaxOps = 7
   MaxLive = 3
   WithRestart = TRUE
-  DelW = 30
-  RestartW = 40
+  SimPrint = TRUE
+  DelW = 15
+  RestartW = 60
   PartialOverlapChecked = TRUE
   ExcludeKept = TRUE
   UserRoleReverted = TRUE
